@@ -94,6 +94,18 @@ def run_case(ctx, mon, cfg_id, terms, prods, inputs_spec=None, rng=None):
     if len(parsers) < 2:
         return None
     ctx.count("grammars")
+    if sum(map(ord, str(sorted(prods)))) % 3 == 0:
+        # the parser's self description is printed before it is used
+        import contextlib
+        import io
+        for parser in parsers.values():
+            try:
+                with contextlib.redirect_stdout(io.StringIO()):
+                    parser.print_detailed_descr()
+                ctx.count("parsers_described_before_use")
+            except Exception as err:
+                ctx.violation("describing-the-parser-raises", {"type": type(err).__name__, "msg": str(err)[:100]},
+                              dict(base_case, inputs=[]))
     ll1 = gram.is_ll1(prods, start)
     follow_needed = gram.needs_follow(prods, start)
     amb = {smart: bool(p.is_ambiguous()) for smart, p in parsers.items()}
